@@ -768,9 +768,11 @@ func (s *Sim) ReadKeys(node string) (idx []int, term int64, ok bool) {
 		return nil, 0, false
 	}
 	lc, err := n.dir.GetLeader(Shard)
-	if err != nil || lc.Status() != proto.ServingStatus_LEADER {
+	if err != nil {
 		return nil, 0, false
 	}
+	// the request is sent whatever the node's status is: refusing it is the controller's job (a node that
+	// is not LEADER and answers anyway produces a read that the linearizability check judges)
 	term = lc.Term()
 	ch := make(chan []string, 1)
 	failed := make(chan struct{}, 1)
